@@ -1780,4 +1780,340 @@ theorem C04_cycle_loop (img : Image) (P0 : Nat) (b : List Instr) (v : String) (n
   exact ⟨ts, s', hl, hrun, hev, hfr, hvals, s1, hp⟩
 
 
+section WhileLoop
+open Sem
+
+/-! ## 4. `repeat while` -/
+
+/-- a call-free condition that does not read the `result` register (which the loop test itself
+overwrites; `Sem` does not model that register) -/
+inductive PureCond : Expr → Prop
+  | lit (v : Val) : Gen.pushLit v = .pushq v → PureCond (.lit v)
+  | var (n : String) : PureCond (.var n)
+  | reg (r : Reg) : r ≠ .result → PureCond (.reg r)
+  | un (minus : Bool) (e : Expr) : PureCond e → PureCond (.un minus e)
+  | bin (op : Operator) (a b : Expr) : PureCond a → PureCond b → PureCond (.bin op a b)
+  | paren (e : Expr) : PureCond e → PureCond (.paren e)
+
+theorem PureCond.callFree {e : Expr} (h : PureCond e) : CallFree e := by
+  induction h with
+  | lit v hv => exact .lit v hv
+  | var n => exact .var n
+  | reg r _ => exact .reg r
+  | un m e _ ih => exact .un m e ih
+  | bin op a b _ _ iha ihb => exact .bin op a b iha ihb
+  | paren e _ ih => exact .paren e ih
+
+/-- the value of such a condition depends only on what names denote and on the registers other
+than `result`; evaluating it changes nothing -/
+theorem evalExpr_pure_congr (e : Expr) (he : PureCond e) :
+    ∀ (f : Nat) (σ τ : S) (x : Val) (σ1 : S), (∀ n, σ.lookup n = τ.lookup n) →
+      (∀ r, r ≠ .result → σ.vm.regs r = τ.vm.regs r) → evalExpr f e σ = .ok (x, σ1) →
+      σ1 = σ ∧ evalExpr f e τ = .ok (x, τ) := by
+  induction he with
+  | lit v hv =>
+    intro f σ τ x σ1 _ _ h
+    cases f with
+    | zero => simp [evalExpr] at h
+    | succ f =>
+      simp only [evalExpr, Except.ok.injEq, Prod.mk.injEq] at h
+      obtain ⟨rfl, rfl⟩ := h
+      exact ⟨rfl, by simp [evalExpr]⟩
+  | var n =>
+    intro f σ τ x σ1 hl _ h
+    cases f with
+    | zero => simp [evalExpr] at h
+    | succ f =>
+      simp only [evalExpr] at h ⊢
+      rw [← hl n]
+      split at h
+      · simp at h
+      · rename_i hne
+        simp only [Except.ok.injEq, Prod.mk.injEq] at h
+        obtain ⟨rfl, rfl⟩ := h
+        exact ⟨rfl, rfl⟩
+  | reg r hr =>
+    intro f σ τ x σ1 _ hrg h
+    cases f with
+    | zero => simp [evalExpr] at h
+    | succ f =>
+      simp only [evalExpr] at h ⊢
+      rw [← hrg r hr]
+      split at h
+      · simp at h
+      · rename_i hne
+        simp only [Except.ok.injEq, Prod.mk.injEq] at h
+        obtain ⟨rfl, rfl⟩ := h
+        exact ⟨rfl, rfl⟩
+  | paren e _ ih =>
+    intro f σ τ x σ1 hl hrg h
+    cases f with
+    | zero => simp [evalExpr] at h
+    | succ f =>
+      simp only [evalExpr] at h ⊢
+      exact ih f σ τ x σ1 hl hrg h
+  | un minus e _ ih =>
+    intro f σ τ x σ1 hl hrg h
+    cases f with
+    | zero => simp [evalExpr] at h
+    | succ f =>
+      simp only [evalExpr] at h ⊢
+      split at h
+      · rename_i v σ2 hev
+        obtain ⟨rfl, hτ⟩ := ih f σ τ v σ2 hl hrg hev
+        rw [hτ]
+        cases minus with
+        | false =>
+          simp only [Bool.false_eq_true, if_false, Except.ok.injEq, Prod.mk.injEq] at h
+          obtain ⟨rfl, rfl⟩ := h
+          exact ⟨rfl, by simp⟩
+        | true =>
+          simp only [if_true] at h ⊢
+          split at h
+          · rename_i r hr
+            simp only [Except.ok.injEq, Prod.mk.injEq] at h
+            obtain ⟨rfl, rfl⟩ := h
+            exact ⟨rfl, by simp⟩
+          · simp at h
+      · simp at h
+  | bin op a b _ _ iha ihb =>
+    intro f σ τ r σ1 hl hrg h
+    cases f with
+    | zero => simp [evalExpr] at h
+    | succ f =>
+      obtain ⟨x, σ2, y, ha, hb, hv⟩ := evalExpr_bin_ok f op a b σ σ1 r h
+      obtain ⟨rfl, hτa⟩ := iha f σ τ x σ2 hl hrg ha
+      obtain ⟨rfl, hτb⟩ := ihb f σ2 τ y σ1 hl hrg hb
+      refine ⟨rfl, ?_⟩
+      simp only [evalExpr, hτa, hτb]
+      cases op <;> simp [binVal] at hv ⊢ <;> first | exact hv | (simp [hv]) | skip
+      -- `^`
+      split at hv
+      · rename_i q fl hy
+        split at hv
+        · simp at hv
+        · rename_i hq
+          simp only [hv, hy]
+          rw [if_neg hq]
+      · simp at hv
+
+
+/-- the source-level state and the VM state give names and registers — `result` apart, which
+the code of conditions uses as scratch and `Sem` does not model — the same meaning -/
+def EnvR (σ : S) (s : State) : Prop :=
+  (∀ n, σ.lookup n = s.getVariable n) ∧ ∀ r, r ≠ .result → σ.vm.regs r = s.regs r
+
+/-- `Sem.execWhile` instrumented: the number of passes made and the final state, when the loop
+ends normally after passes that all end normally (no `break`, which is `C04_break_innermost`'s
+subject) -/
+def whilePasses : Nat → Rv → Block → S → Option (Nat × S)
+  | 0, _, _, _ => none
+  | f + 1, c, body, s =>
+    match evalRv f c s with
+    | .ok (v, s1) =>
+      if v.truthy then
+        match execBlock f body s1 with
+        | (.normal, s2) => (whilePasses f c body s2).map fun (m, s') => (m + 1, s')
+        | _ => none
+      else some (0, s1)
+    | .error _ => none
+
+/-- it is `Sem.execWhile` that is being counted -/
+theorem whilePasses_execWhile (f : Nat) (c : Rv) (body : Block) :
+    ∀ (σ σ' : S) (m : Nat), whilePasses f c body σ = some (m, σ') →
+      execWhile f (some c) body σ = (.normal, σ') := by
+  induction f with
+  | zero => intro σ σ' m h; simp [whilePasses] at h
+  | succ f ih =>
+    intro σ σ' m h
+    simp only [whilePasses] at h
+    simp only [execWhile]
+    split at h
+    · rename_i v s1 hev
+      rw [hev]
+      split at h
+      · rename_i hv
+        simp only [hv]
+        split at h
+        · rename_i s2 hb
+          rw [hb]
+          cases hw : whilePasses f c body s2 with
+          | none => simp [hw] at h
+          | some p =>
+            obtain ⟨m', s''⟩ := p
+            simp only [hw, Option.map_some, Option.some.injEq, Prod.mk.injEq] at h
+            obtain ⟨_, rfl⟩ := h
+            exact ih s2 s'' m' hw
+        · simp at h
+      · rename_i hv
+        have hv' : v.truthy = false := by simpa using hv
+        simp only [Option.some.injEq, Prod.mk.injEq] at h
+        obtain ⟨_, rfl⟩ := h
+        simp only [hv']
+    · simp at h
+
+/-- test passed: `result` holds the (true) value of the condition, control is at the body -/
+def enterW (bodyPc : Nat) (x : Val) (s : State) : State :=
+  { s with pc := (bodyPc : Int), regs := fun r => if r = .result then x else s.regs r }
+
+/-- test failed and `END_LOOP` ran -/
+def exitW (afterPc : Nat) (x : Val) (s : State) : State :=
+  { s with pc := (afterPc : Int), regs := fun r => if r = .result then x else s.regs r,
+           stack := s.stack.tail }
+
+/-- passes of a `while` loop: before each one the condition was evaluated — to a true value
+`x` — and after each one control is back at the loop top with nothing else changed -/
+inductive WhilePasses (K : State → State → Prop) (bodyPc top : Nat) :
+    State → List State → State → Prop
+  | done (s : State) : WhilePasses K bodyPc top s [] s
+  | pass {s u s' : State} {ts : List State} (x : Val) : x.truthy = true → K (enterW bodyPc x s) u →
+      WhilePasses K bodyPc top ({ u with pc := (top : Int) }) ts s' →
+      WhilePasses K bodyPc top s (enterW bodyPc x s :: ts) s'
+
+/-- **the body's simulation contract**: whenever the source-level body, started in a state `σ`
+that agrees with the VM state `t` at the body's first instruction, ends normally in `σ'`, the
+body's code runs as `BodyRun` says to a state that agrees with `σ'` -/
+def BodySim (img : Image) (b : List Instr) (body : Block) : Prop :=
+  ∀ (f : Nat) (σ σ' : S) (t : State), EnvR σ t → t.status = .running →
+    (∃ pc : Nat, t.pc = (pc : Int) ∧ CodeAt img pc b) →
+    (∃ vars h rest, t.stack = .loop vars h :: rest) →
+    execBlock f body σ = (.normal, σ') → ∃ u, BodyRun img b t u ∧ EnvR σ' u
+
+theorem while_from_top (img : Image) (top : Nat) (e : Expr) (b : List Instr) (body : Block)
+    (he : PureCond e)
+    (hc : CodeAt img top (loopTail (genExpr e ++ [Instr.pop (.reg .result)]) (b ++ [])))
+    (hsim : BodySim img b body) :
+    ∀ (f : Nat) (σ σ' : S) (m : Nat) (s : State) (vars : List (LoopVar × Val)) (h : Nat)
+      (rest : List Frame),
+      EnvR σ s → s.status = .running → s.pc = (top : Int) → s.stack = .loop vars h :: rest →
+      s.eval.length = h → whilePasses f (.expr e) body σ = some (m, σ') →
+      ∃ ts s_top xf k,
+        WhilePasses (BodyRun img b) (top + (genExpr e).length + 2) top s ts s_top ∧ ts.length = m ∧
+        xf.truthy = false ∧
+        run img k s = exitW (top + (genExpr e).length + b.length + 4) xf s_top ∧
+        EnvR σ' (exitW (top + (genExpr e).length + b.length + 4) xf s_top) ∧
+        s_top.eval = s.eval ∧ ∃ vars' rest', s_top.stack = .loop vars' h :: rest' := by
+  obtain ⟨hT, hJ, hB, _, hBk, hE⟩ := loopTail_parts hc
+  simp only [List.length_append, List.length_cons, List.length_nil, Nat.add_zero, Nat.zero_add] at hJ hB hBk hE
+  intro f
+  induction f with
+  | zero => intro σ σ' m s vars h rest _ _ _ _ _ hw; simp [whilePasses] at hw
+  | succ f ih =>
+    intro σ σ' m s vars h rest henv hs hpc hst hev hw
+    simp only [whilePasses] at hw
+    cases f with
+    | zero => simp [evalRv] at hw
+    | succ f =>
+      simp only [evalRv] at hw
+      cases hcond : evalExpr f e σ with
+      | error o => simp [hcond] at hw
+      | ok p =>
+        obtain ⟨x, σ1⟩ := p
+        simp only [hcond] at hw
+        -- the test code computes `x` into `result`
+        let τ : S := { σ with vm := { σ.vm with regs := s.regs } }
+        obtain ⟨rfl, hτ⟩ := evalExpr_pure_congr e he f σ τ x σ1 (fun _ => rfl)
+          (fun r hr => henv.2 r hr) hcond
+        have hsame : SameEnv τ s := ⟨fun n => henv.1 n, rfl⟩
+        have htest := C02_value_in_register img e he.callFree .result f τ τ x s top hs hpc
+          (by simpa [genRv] using hT) hsame hτ
+        simp only [genRv, List.length_append, List.length_cons, List.length_nil, Nat.zero_add] at htest
+        let sT : State :=
+          { s with pc := (top : Int) + ((genExpr e).length + 1 : Nat),
+                   regs := fun r' => if r' = .result then x else s.regs r' }
+        have hjmp := run_jump_ifFalse img sT (top + ((genExpr e).length + 1)) _ (by exact hs)
+          (by simp [sT]) hJ
+        by_cases hx : x.truthy = true
+        · simp only [hx, if_true] at hw
+          cases hbody : execBlock (f + 1) body σ1 with
+          | mk o σ2 =>
+            cases o <;> simp only [hbody] at hw <;> try (simp at hw)
+            cases hrec : whilePasses (f + 1) (.expr e) body σ2 with
+            | none => simp [hrec] at hw
+            | some q =>
+              obtain ⟨m', σ''⟩ := q
+              simp only [hrec, Option.some.injEq, Prod.mk.injEq] at hw
+              obtain ⟨w, ⟨rfl, rfl⟩, rfl⟩ := hw
+              have hent : run img 1 sT = enterW (top + (genExpr e).length + 2) x s := by
+                rw [hjmp]
+                apply State.ext' <;> first | rfl | (simp [sT, enterW, hx]; omega) | (simp [sT, enterW, hx])
+              obtain ⟨u, ⟨⟨k1, hk1⟩, hur, hupc, huev, hufr⟩, henv2⟩ :=
+                hsim (f + 1) σ1 σ2 (enterW (top + (genExpr e).length + 2) x s)
+                  ⟨fun n => henv.1 n, fun r hr => by simp [enterW, hr, henv.2 r hr]⟩
+                  (by exact hs) ⟨top + (genExpr e).length + 2, rfl, by
+                    have : top + ((genExpr e).length + 1) + 1 = top + (genExpr e).length + 2 := by omega
+                    rw [← this]; exact hB⟩
+                  ⟨vars, h, rest, by exact hst⟩ hbody
+              obtain ⟨rest', hust⟩ := hufr vars h rest (by exact hst)
+              have hback : run img 1 u = { u with pc := (top : Int) } := by
+                rw [run_jump_always img u (top + ((genExpr e).length + 1) + 1 + b.length) _ hur
+                  (by rw [hupc]; simp [enterW]; omega) hBk]
+                apply State.ext' <;> first | rfl | (simp; omega)
+              obtain ⟨ts, s_top, xf, k2, hch, hl, hxf, hrun2, henv3, hev3, hfr3⟩ :=
+                ih σ2 σ'' m' ({ u with pc := (top : Int) } : State) vars h rest'
+                  ⟨fun n => henv2.1 n, fun r hr => henv2.2 r hr⟩ (by exact hur) rfl (by exact hust)
+                  (by show u.eval.length = h; rw [huev]; exact hev) hrec
+              refine ⟨_ :: ts, s_top, xf, (genExpr e).length + 1 + (1 + (k1 + (1 + k2))),
+                .pass x hx ⟨⟨k1, hk1⟩, hur, hupc, huev, hufr⟩ hch, by simp [hl], hxf, ?_, henv3, ?_, hfr3⟩
+              · exact run_trans htest (run_trans hent (run_trans hk1 (run_trans hback hrun2)))
+              · rw [hev3]; exact huev
+        · have hx' : x.truthy = false := by simpa using hx
+          simp only [hx', Bool.false_eq_true, if_false, Option.some.injEq, Prod.mk.injEq] at hw
+          obtain ⟨rfl, rfl⟩ := hw
+          have hfail : run img 1 sT = ({ sT with pc := ((top + (genExpr e).length + b.length + 3 : Nat) : Int) } : State) := by
+            rw [hjmp]
+            apply State.ext' <;> first | rfl | (simp [sT, hx']; omega) | (simp [sT, hx'])
+          have hend : run img 1 ({ sT with pc := ((top + (genExpr e).length + b.length + 3 : Nat) : Int) } : State) =
+              exitW (top + (genExpr e).length + b.length + 4) x s := by
+            rw [run_one _ _ (by exact hs),
+              step_endLoop img _ (top + (genExpr e).length + b.length + 3) vars h rest (by exact hs) rfl
+                (by rw [← hE]; congr 1; omega) (by exact hst)]
+            apply State.ext' <;> first | rfl | (simp [sT, exitW, hst, trimEval, ← hev]; omega) |
+              (simp [sT, exitW, hst, trimEval, ← hev])
+          refine ⟨[], s, x, (genExpr e).length + 1 + (1 + 1), .done s, rfl, hx', ?_, ?_, rfl, vars, rest, hst⟩
+          · exact run_trans htest (run_trans hfail hend)
+          · exact ⟨fun n => by rw [henv.1 n]; simp [State.getVariable, exitW, hst, activation],
+              fun r hr => by simp [exitW, hr, henv.2 r hr]⟩
+
+
+theorem assembled_while (test b : List Instr) :
+    unG (assembleLoop [] test [] (ins b) []) = [Instr.loop] ++ [] ++ loopTail test (b ++ []) := by
+  rw [assembleLoop_ins, unG_ins, loopCode_eq]; simp
+
+/-- **while_loop.**  `repeat while {e}` for a call-free condition `e` (not reading the scratch
+register `result`) and any body related to its source `body` by `BodySim`: if the source-level
+loop `Sem.execWhile` ends normally after `m` passes in `σ'` (fuel `f`), then the VM, started at
+`LOOP` in a state that agrees with `σ`, evaluates the condition before every pass — each pass
+starts in a state `enterW … x …` with `x` the condition's value then, true — runs the body
+exactly `m` times, leaves the loop the first time the condition is false (`xf`), and ends just
+past `END_LOOP` in a state that agrees with `σ'`, loop frame popped, evaluation stack restored. -/
+theorem C04_while_loop (img : Image) (P0 : Nat) (e : Expr) (b : List Instr) (body : Block)
+    (he : PureCond e)
+    (hc : CodeAt img P0 (unG (assembleLoop [] (genRv (.expr e) (.to result)) [] (ins b) [])))
+    (hsim : BodySim img b body) (f : Nat) (σ σ' : S) (m : Nat) (s : State)
+    (henv : EnvR σ s) (hs : s.status = .running) (hpc : s.pc = (P0 : Int))
+    (hw : whilePasses f (.expr e) body σ = some (m, σ')) :
+    execWhile f (some (.expr e)) body σ = (.normal, σ') ∧
+    ∃ ts s_top xf k,
+      WhilePasses (BodyRun img b) (P0 + 1 + (genExpr e).length + 2) (P0 + 1) (afterLoop s) ts s_top ∧
+      ts.length = m ∧ xf.truthy = false ∧
+      run img k s = exitW (P0 + 1 + (genExpr e).length + b.length + 4) xf s_top ∧
+      EnvR σ' (exitW (P0 + 1 + (genExpr e).length + b.length + 4) xf s_top) ∧
+      s_top.eval = s.eval ∧ ∃ vars', s_top.stack = .loop vars' s.eval.length :: (exitW 0 xf s_top).stack := by
+  refine ⟨whilePasses_execWhile f _ body σ σ' m hw, ?_⟩
+  rw [assembled_while] at hc
+  have hL : img.code[P0]? = some .loop := by have := hc.left.left.head; simpa using this
+  have hT : CodeAt img (P0 + 1) (loopTail (genExpr e ++ [Instr.pop (.reg .result)]) (b ++ [])) := by
+    have := hc.right
+    simpa [genRv, result] using this
+  obtain ⟨ts, s_top, xf, k, hch, hl, hxf, hrun, henv', hev, vars', rest', hst'⟩ :=
+    while_from_top img (P0 + 1) e b body he hT hsim f σ σ' m (afterLoop s) [] s.eval.length s.stack
+      ⟨fun n => henv.1 n, fun r hr => henv.2 r hr⟩ (by exact hs) (by simp [afterLoop, hpc]) rfl rfl hw
+  refine ⟨ts, s_top, xf, 1 + k, hch, hl, hxf, run_trans (run_loop_instr img s P0 hs hpc hL) hrun, henv', hev,
+    vars', ?_⟩
+  simp [exitW, hst']
+
+
+end WhileLoop
+
 end Bardolph
